@@ -12,6 +12,8 @@ from pathlib import Path
 from harness import core
 from harness.core import enc, strs, bool_
 from harness.props import _c19_extract as ex
+from harness.props import _c19_fns as fns
+from harness.props import _c19_builtins as bt
 
 PROP = "C19"
 REQUIRED_THEOREMS = [
@@ -27,17 +29,29 @@ REQUIRED_THEOREMS = [
     "api_history_projects", "first_registration_wins_public",
     # dispatch of the ten convenience functions (regenerated table: convFns) + format inference
     "dispatch_uses_resolution", "infer_file_format_spec", "extOf_spec", "supported_file_extensions_instances",
+    # the source of base_registry.py / infer_file_format translated function by function (Generated/C19Fns.lean) = the model
+    "generated_full_plugin_name_eq_model", "generated_is_registered_plugin_eq_model", "generated_add_plugin_eq_model",
+    "generated_add_instantiated_eq_model", "generated_set_plugin_eq_model", "generated_get_plugin_eq_model",
+    "generated_registered_plugins_eq_model", "generated_infer_file_format_eq_model",
+    # import-time registration: regenerated decorator call sites (Generated/C19Builtins.lean) and load_plugins()
+    "builtin_names_unique", "builtins_register_cleanly", "load_plugins_order", "loadPlugins_eq_runApi",
+    "entry_point_cannot_shadow_builtin", "shadowed_entry_point_reachable", "entry_point_order_decides_counterexample",
 ]
 GEN_FILE = core.LEAN / "GlotaranModel" / "Generated" / "C19.lean"
 TRUSTED = [
-    "hand-written model lean/GlotaranModel/C19.lean of glotaran/plugin_system/base_registry.py "
-    "(add_plugin_to_registry, add_instantiated_plugin_to_registry, set_plugin, get_plugin_from_registry, "
-    "registered_plugins), tied to the code by differential execution only",
-    "Python dict semantics (insertion replaces, membership by string equality)",
-    "extractor harness/props/_c19_extract.py (ast over megacomplex_registration.py, data_io_registration.py, "
-    "project_io_registration.py, signatures of base_registry.py and infer_file_format): its tables are interpreted by the "
-    "model (callApi / dispatch) and cross-checked by running the real public functions on the same calls",
-    "hand-written model of io_plugin_utils.infer_file_format / os.path.splitext (posix), tied by differential execution",
+    "function-level translator harness/props/_c19_fns.py (ast -> Lean do-blocks) and its hand-written vocabulary "
+    "lean/GlotaranModel/C19Py.lean (meaning of dict get/set/in/keys, warn, raise, f-strings, sorted/filter, instantiation, "
+    "os.path.splitext / lstrip on the model's types): generated_*_eq_model prove the translated add_plugin_to_registry, "
+    "add_instantiated_plugin_to_registry, set_plugin, get_plugin_from_registry, registered_plugins, is_registered_plugin, "
+    "full_plugin_name, infer_file_format equal to the model lean/GlotaranModel/C19.lean; the same model is still executed "
+    "against the real functions",
+    "Python dict semantics (insertion replaces in place / appends, membership by string equality)",
+    "extractors harness/props/_c19_extract.py (wrapper / convenience-function tables) and _c19_builtins.py (decorator call "
+    "sites under glotaran/builtin/, entry points of setup.cfg): their tables are interpreted by the model and cross-checked by "
+    "running the real public functions / comparing with the registries `import glotaran` produced",
+    "hand-written model of load_plugins() (entry points in importlib's order, no try around load()), of get_method_from_plugin / "
+    "methods_differ_from_baseclass(_table) / supported_file_extensions (supportedExtensions) and of os.path.splitext (posix), tied "
+    "by differential execution",
 ]
 ASSUMPTIONS = [
     "full_plugin_name(plugin) = module + '.' + class name (always contains '.')",
@@ -67,7 +81,16 @@ RULE = (
     "all) x format_name in {absent, '', a, yml, yaml, zz}: outcome (methods called + plugin instance / which ValueError with "
     "the names it lists) compared with the model's dispatch through the regenerated table, and with a model-independent "
     "reading of the statement (oracle_format). extension stream: supported_file_extensions_* after random histories with "
-    "classes overriding different method subsets and names ending in _str / str"
+    "classes overriding different method subsets and names ending in _str / str. "
+    "import stream: load_plugins() on empty registries over simulated entry points (monkeypatched importlib.metadata."
+    "entry_points): 2-5 builtin call sites of the regenerated table (classes with the builtins' module and class names), 1-3 "
+    "third-party entry points asking for builtin names (+ new names, + a second registry), groups glotaran.plugins* / foreign, an "
+    "entry point listed twice, imports that raise before / between / after their registrations or through a dotted name, "
+    "DEACTIVATE_GTA_PLUGINS; compared with the model's `load`: whether loading ended with an exception, the outcome and warning "
+    "flags of every registration call made, all names and what each resolves to (instance identity) in all three registries; "
+    "oracle from the scenario alone (first registration in loading order owns the name, every loaded plugin reachable under its "
+    "full key, nothing from skipped / unreached entry points). builtin table: the regenerated decorator call sites against the "
+    "registries the real `import glotaran` produced (names listed, every short name resolves to the builtin class)"
 )
 
 def generate(ck):
@@ -77,7 +100,9 @@ def generate(ck):
     GEN_FILE.parent.mkdir(parents=True, exist_ok=True)
     if not GEN_FILE.exists() or GEN_FILE.read_text() != text:
         GEN_FILE.write_text(text)
-    return [{
+    translated = fns.generate(core.REPO, core.LEAN)
+    builtins = bt.generate(core.REPO, core.LEAN)
+    return [translated, builtins, {
         "table": "Accessors + ConvFns + ExtFns + inferDefaults (lean/GlotaranModel/Generated/C19.lean)",
         "source": ex.SOURCES,
         "source_sha1": ex.source_sha1(core.REPO),
@@ -110,7 +135,7 @@ CLASSES = {  # tag -> (module, name)
     "U": ("m", "A_b"),  # used by the full-key collision finding
 }
 SHORT = ["a", "b", "a.b"]
-UNIVERSE = ["a", "b", "c", "b_c", "a.b", "m.A", "m.B", "m.A_a", "m.A_b", "m.B_a", "m.B_b", "m.A_b_c", "zz"]
+UNIVERSE = ["a", "b", "c", "b_c", "a.b", "m.A", "m.B", "m.A_a", "m.A_b", "m.B_a", "m.B_b", "m.A_b_c", "zz", "Q", "q", "m.A_Q", "m.a_q"]
 # the two shapes of the recorded finding (Lean: every_plugin_reachable_counterexample / …_plain_name)
 WITNESSES = [
     [("addinst", ["c"], "U"), ("addinst", ["b_c"], "X")],
@@ -120,6 +145,9 @@ WITNESSES = [
 
 # registrations that can collide on a dotted key (class m.A_b against class m.A + format b); used in the random streams only
 COLLIDE_OPS = [("addinst", ["b"], "U"), ("addinst", ["a"], "U"), ("addinst", ["b", "a"], "X")]
+# more operations for the random streams and the search: a short name as set target, names with capitals (look-up is exact)
+EXTRA_OPS = [("set", "b", "a"), ("set", "a", "b"), ("addinst", ["Q"], "X"), ("add", "Q", "Z"), ("set", "Q", "m.A_Q"),
+             ("set", "b", "m.A_Q"), ("addinst", ["q", "Q"], "Z")]
 
 
 def alphabet(full: bool):
@@ -221,10 +249,11 @@ class Real:
                     except ValueError as e:
                         if "isn't allowed to contain the character '.'" in str(e):
                             return line, "err dotted"
+                        # the message must name the known full names; the model predicts the order too (dict order)
+                        listed = names_in_message(str(e))
                         known = sorted(k for k in self.reg if "." in k)
-                        # the message must name the known full names
-                        named = all(repr(k) in str(e) for k in known)
-                        return line, "err unknown-full " + strs(known) + ("" if named else " MESSAGE-INCOMPLETE")
+                        named = listed is not None and sorted(listed) == known
+                        return line, "err unknown-full " + strs(listed if listed is not None else known) + ("" if named else " MESSAGE-INCOMPLETE")
                     return line, "done"
                 if kind == "get":
                     _, key = op
@@ -328,6 +357,9 @@ class Oracle:
         elif kind == "set":
             if answer == "done":
                 self.expect[op[1]] = self.snapshot[op[2]]
+                if "." not in op[2]:
+                    ck.violation("set-short-target-accepted", f"set_plugin({op[1]!r}, {op[2]!r}) accepted a target that is not a "
+                                 f"full plugin name", case)
             elif reg != self.snapshot:
                 ck.violation("set-rejected-mutated", "rejected set_plugin changed the registry", case)
             if "." in op[1] and answer != "err dotted":
@@ -339,6 +371,21 @@ class Oracle:
             if reg.get(k) is not obj:
                 ck.violation("short-name-replaced", f"short name {k!r} no longer resolves to the plugin first "
                              f"registered / last set under it", case)
+        # ... through the real functions: every name registered_plugins lists is retrievable with get_plugin_from_registry
+        # and is the object the dict holds; the short listing is the sorted list of the undotted names
+        listed = br.registered_plugins(reg, full_names=True)
+        if listed != sorted(reg.keys()) or br.registered_plugins(reg) != sorted(k for k in reg if "." not in k):
+            ck.violation("listing-wrong", f"registered_plugins lists {listed}, the registry holds {sorted(reg.keys())} "
+                         f"(short: {br.registered_plugins(reg)})", case)
+        for k in list(reg.keys()):
+            try:
+                got = br.get_plugin_from_registry(k, reg, "nf")
+            except ValueError:
+                got = None
+            if got is not reg[k]:
+                ck.violation("known-name-not-retrievable", f"{k!r} is registered but get_plugin_from_registry({k!r}) "
+                             f"{'raises' if got is None else 'returns another plugin'}", case)
+                break
         # every registered plugin reachable under its full key — and under every other dotted name it was stored
         # under (the plain full name of a conflicting registration, which the overwrite warning tells the user to pass to
         # set_*_plugin).  The write trace is recorded by the dict itself (RecDict), not taken from the model.
@@ -607,11 +654,16 @@ def public_api(ck):
                             fn(which, "set")(k, full)
                             impl.append("done")
                             expect[(which, k)] = target
-                        except ValueError:
+                        except ValueError as e:
                             if "." in k:
                                 impl.append("err dotted")
                             else:
-                                impl.append("err unknown-full " + strs(sorted(x for x in known(full_names=True) if "." in x)))
+                                # the names the message prints, in the order it prints them (dict order; Lean: keys)
+                                listed = names_in_message(str(e))
+                                impl.append("err unknown-full " + (strs(listed) if listed is not None else "MESSAGE-UNPARSABLE"))
+                                if listed is None or sorted(listed) != sorted(x for x in known(full_names=True) if "." in x):
+                                    ck.violation("unknown-message", f"{which}: ValueError of {a['set']} does not name exactly the "
+                                                 f"registered full names", case)
                     elif r < 0.84:
                         k = rng.choice(["a", "b", "c", "x", "zz"] + [x for x in known(full_names=True) if "." in x][:2])
                         hist.append(["get", which, k])
@@ -885,7 +937,12 @@ def dispatch_stream(ck, only=None):
                                     else:
                                         ck.count("dispatch:no-format-rejected")
                                 elif use in known():
-                                    want = get(use)
+                                    try:
+                                        want = get(use)
+                                    except ValueError as e2:
+                                        ck.violation("known-name-not-retrievable", f"{which}: {use!r} is listed by known_*() but "
+                                                     f"get_*({use!r}) raises {e2!r}", case)
+                                        continue
                                     if err is not None or [c for c in calls] != [(fname, want)]:
                                         ck.count("dispatch:wrong")
                                         ck.violation("dispatch-wrong-plugin", f"{which}.{fname}({rel}, format_name={given!r}) did not "
@@ -973,8 +1030,14 @@ def ext_stream(ck, only=None):
                 table = core.lst(f"[{uids[id(o)]},{strs(subsets[classes.index(type(o))])}]" for o in keep)
                 for methods in ([only["methods"]] if only else ([all_methods[0]], all_methods[:2], all_methods[1:2], all_methods, [])):
                     case = {"api": which, "history": hist, "methods": methods}
-                    got = list(sup(methods if len(methods) != 1 or rng.random() < 0.5 else methods[0]))
                     lines.append(f"supported {sup_name} {strs(methods)} {table}")
+                    try:
+                        got = list(sup(methods if len(methods) != 1 or rng.random() < 0.5 else methods[0]))
+                    except ValueError as e2:
+                        impl.append("raised ValueError")
+                        ck.violation("known-name-not-retrievable", f"{which}: {sup_name}({methods}) raised {e2!r}: a name listed by "
+                                     f"known_*() is not retrievable", case)
+                        continue
                     impl.append("exts " + strs(got))
                     ck.oracle_evals += 1
                     want = ["." + k for k in known() if not k.endswith("_str")
@@ -982,6 +1045,328 @@ def ext_stream(ck, only=None):
                     if got != want:
                         ck.violation("supported-extensions", f"{which}: {sup_name}({methods}) = {got}, the statement gives {want}", case)
             yield which, hist, lines, impl
+
+
+# ------------------------------------------------------------------------------------------
+# import-time registration: load_plugins() over simulated entry points; the regenerated builtin table
+# ------------------------------------------------------------------------------------------
+GROUP_OF = {"data_io": "glotaran.plugins.data_io", "project_io": "glotaran.plugins.project_io",
+            "megacomplex": "glotaran.plugins.megacomplexes"}
+REGISTER_FN = {"data_io": "register_data_io", "project_io": "register_project_io", "megacomplex": "register_megacomplex"}
+GET_FN = {"data_io": "get_data_io", "project_io": "get_project_io", "megacomplex": "get_megacomplex"}
+KNOWN_FN = {"data_io": "known_data_formats", "project_io": "known_project_formats", "megacomplex": "known_megacomplex_names"}
+
+
+class FakeEntryPoint:
+    def __init__(self, group, name, loader):
+        self.group, self.name, self._loader = group, name, loader
+
+    def load(self):
+        return self._loader()
+
+
+def builtin_tie(ck):
+    """the regenerated table of decorator call sites against the registries as `import glotaran` left them (the real
+    load_plugins() over the real entry points of this environment): the model, loading the table's registrations through
+    `load`, must list the same names and resolve every short name to the same class; oracle: every builtin short name
+    resolves to the builtin class (nothing shadowed it), `builtin_names_unique` read on the real registry."""
+    from importlib import metadata
+
+    from glotaran.plugin_system import data_io_registration as dreg
+    from glotaran.plugin_system import megacomplex_registration as mreg
+    from glotaran.plugin_system import project_io_registration as preg
+    from glotaran.plugin_system.base_registry import full_plugin_name
+
+    regs, _eps = bt.extract(core.REPO)
+    mods = {"data_io": dreg, "project_io": preg, "megacomplex": mreg}
+    real_eps = [e for e in metadata.entry_points() if e.group.startswith("glotaran.plugins")]
+    foreign = [e for e in real_eps if not e.value.startswith("glotaran.builtin")]
+    ck.extra["entry_points_of_this_environment"] = [f"{e.group}:{e.name}={e.value}" for e in real_eps]
+    # model: one entry point per real entry point, carrying the table's call sites of that module (prefix match)
+    eps, uid, used = [], 0, set()
+    for e in real_eps:
+        calls = []
+        for i, r in enumerate(regs):
+            if i not in used and (r["module"] == e.value or r["module"].startswith(e.value + ".")):
+                used.add(i)
+                if r["attr"] == "megacomplex":
+                    calls.append(f"[{enc(REGISTER_FN[r['attr']])},[{val_str(r['names'][0] if r['names'] else '')},{val_cls(r['module'], r['cls'], uid)}]]")
+                else:
+                    calls.append(f"[{enc(REGISTER_FN[r['attr']])},[{val_strs(r['names'])},{val_cls(r['module'], r['cls'], uid)}]]")
+                uid += max(1, len(r["names"]))
+        eps.append(f"[{enc(e.group)},F,[{','.join(calls)}]]")
+    lines = ["reset", f"load F [{','.join(eps)}]"]
+    impl = ["reset", None]
+    case = {"stream": "builtin-table"}
+    unused = [regs[i] for i in range(len(regs)) if i not in used]
+    if unused and not foreign:
+        ck.disagree("builtin-not-an-entry-point", f"decorator call sites that no glotaran.plugins entry point imports: "
+                    f"{[(r['module'], r['cls']) for r in unused]}", case)
+    for attr, mod in mods.items():
+        known = getattr(mod, KNOWN_FN[attr])
+        get = getattr(mod, GET_FN[attr])
+        lines.append(f"api {KNOWN_FN[attr]} [T]")
+        impl.append("names " + strs(known(full_names=True)))
+        for k in known():
+            lines.append(f"api is_known_{'megacomplex' if attr == 'megacomplex' else attr.replace('_io', '') + '_format'} [{val_str(k)}]")
+            impl.append("bool T")
+        ck.oracle_evals += 1
+        names = [n for r in regs if r["attr"] == attr for n in r["names"]]
+        if len(set(names)) != len(names) or any("." in n for n in names) or not all(r["literal"] for r in regs):
+            ck.violation("builtin-names-clash", f"{attr}: the builtin decorator call sites register {names}", case)
+        for r in regs:
+            if r["attr"] != attr:
+                continue
+            for n in r["names"]:
+                try:
+                    got = full_plugin_name(get(n))
+                except ValueError:
+                    got = None
+                if got != f"{r['module']}.{r['cls']}" and not foreign:
+                    ck.violation("builtin-shadowed", f"{attr}: builtin name {n!r} resolves to {got!r}, the source registers "
+                                 f"{r['module']}.{r['cls']} under it", case)
+        if not foreign and sorted(known()) != sorted(names):
+            ck.violation("builtin-names-differ", f"{attr}: registered short names {known()} but the decorator call sites give {sorted(names)}", case)
+    ck.case(("builtin-table",), True)
+    ck.count("stream:builtin-table")
+    yield "builtins", [], lines, impl
+
+
+def import_stream(ck):
+    """load_plugins() on empty registries over simulated entry points (monkeypatched importlib.metadata.entry_points): builtin
+    call sites of the regenerated table (classes with the builtins' module and class names), third-party entry points that
+    ask for builtin names, foreign groups, an entry point listed twice, entry points whose import raises (before / between /
+    after their registrations, or by registering a dotted name), DEACTIVATE_GTA_PLUGINS.  Model: `load` (loadPlugins)."""
+    import sys
+
+    from glotaran.io.interface import DataIoInterface, ProjectIoInterface
+    from glotaran.plugin_system import base_registry as br
+    from glotaran.plugin_system import data_io_registration as dreg
+    from glotaran.plugin_system import megacomplex_registration as mreg
+    from glotaran.plugin_system import project_io_registration as preg
+    from glotaran.testing.plugin_system import (
+        monkeypatch_plugin_registry_data_io,
+        monkeypatch_plugin_registry_megacomplex,
+        monkeypatch_plugin_registry_project_io,
+    )
+
+    if sys.version_info < (3, 12):
+        ck.count("import-stream:skipped-python<3.12")
+        return
+    regs, _ = bt.extract(core.REPO)
+    mods = {"data_io": dreg, "project_io": preg, "megacomplex": mreg}
+    bases = {"data_io": DataIoInterface, "project_io": ProjectIoInterface}
+    rng = ck.rng
+    for si in range(ck.n(60, 600)):
+        counter = [0]
+        uids: dict[int, int] = {}
+        keep = []
+        mega_uid = [1000]
+
+        def mk(attr, mod, name):
+            if attr == "megacomplex":
+                cls = type(name, (object,), {"__module__": mod})
+                uids[id(cls)] = mega_uid[0]
+                mega_uid[0] += 1
+                keep.append(cls)
+                return cls
+            base = bases[attr]
+
+            def __init__(self, format_name, _base=base):
+                _base.__init__(self, format_name)
+                uids[id(self)] = counter[0]
+                counter[0] += 1
+                keep.append(self)
+
+            return type(name, (base,), {"__module__": mod, "__init__": __init__})
+
+        # the scenario: a list of entry points = (group, [registration specs], fail position or None)
+        def reg_spec(attr, names, mod, name):
+            return {"attr": attr, "names": list(names), "module": mod, "cls": name}
+
+        pool = []
+        for r in rng.sample(regs, min(len(regs), rng.randint(2, 5))):
+            pool.append((GROUP_OF[r["attr"]], [reg_spec(r["attr"], r["names"], r["module"], r["cls"])], None, "builtin"))
+        sampled = [x for x in regs if any(sp[1][0]["cls"] == x["cls"] for sp in pool)]
+        for _ in range(rng.randint(1, 3)):      # third party asking for builtin names (and a new one)
+            r = rng.choice(sampled) if sampled and rng.random() < 0.7 else rng.choice(regs)
+            names = rng.sample(r["names"], rng.randint(1, len(r["names"]))) + (["third"] if rng.random() < 0.5 else [])
+            tmod, tname = "third.party", "Plug" + r["cls"][:3]
+            if r["attr"] == "megacomplex":       # register_megacomplex takes one name per call
+                specs = [reg_spec("megacomplex", [n], tmod, tname) for n in names]
+            else:
+                specs = [reg_spec(r["attr"], names, tmod, tname)]
+            if rng.random() < 0.3:
+                specs.append(reg_spec(rng.choice(list(GROUP_OF)), ["extra"], "third.party", "Extra"))
+            fail = rng.choice([None, None, None, 0, len(specs), "dotted"])
+            if fail == "dotted":                 # the last registration of the module asks for a dotted name: ValueError
+                last = specs[-1]
+                last["names"] = ["not.allowed"] if last["attr"] == "megacomplex" else last["names"] + ["not.allowed"]
+            group = rng.choice([GROUP_OF[r["attr"]], "glotaran.plugins", "glotaran.plugins_more", "console_scripts", "glotaran.plugin"])
+            pool.append((group, specs, fail, "third"))
+        rng.shuffle(pool)
+        if rng.random() < 0.3:
+            pool.insert(rng.randint(0, len(pool)), rng.choice(pool))     # an entry point listed twice
+        deactivated = rng.random() < 0.1
+        class_cache = {}
+        performed = []       # (attr, names, cls object) in execution order, as the real run made them
+        model_eps = []
+        outs = []            # outcome of every registration call made, as the model prints it
+        n_warned = [0]
+
+        def loader_for(idx, group, specs, fail):
+            def load():
+                rec = model_eps[idx]
+                rec["loaded"] = True
+                for j, sp in enumerate(specs):
+                    if fail == j:
+                        rec["fails"] = True
+                        raise ImportError("simulated failing plugin import")
+                    key = (sp["attr"], sp["module"], sp["cls"])
+                    cls = class_cache.setdefault(key, mk(sp["attr"], sp["module"], sp["cls"]))
+                    names = list(sp["names"])
+                    base_uid = uids[id(cls)] if sp["attr"] == "megacomplex" else counter[0]
+                    if sp["attr"] == "megacomplex":
+                        rec["calls"].append(f"[{enc(REGISTER_FN['megacomplex'])},[{val_str(names[0])},{val_cls(sp['module'], sp['cls'], base_uid)}]]")
+                    else:
+                        rec["calls"].append(f"[{enc(REGISTER_FN[sp['attr']])},[{val_strs(names)},{val_cls(sp['module'], sp['cls'], base_uid)}]]")
+                    performed.append((sp["attr"], names, cls))
+                    dpos = [i for i, k in enumerate(names) if "." in k]
+                    proc = names[: dpos[0]] if dpos else names
+                    with warnings.catch_warnings(record=True) as w1:
+                        warnings.simplefilter("always")
+                        try:
+                            if sp["attr"] == "megacomplex":
+                                mods["megacomplex"].register_megacomplex(names[0], cls)
+                            else:
+                                getattr(mods[sp["attr"]], REGISTER_FN[sp["attr"]])(names)(cls)
+                            err = None
+                        except ValueError as e:
+                            err = e
+                    n_warned[0] += len([x for x in w1 if issubclass(x.category, br.PluginOverwriteWarning)])
+                    flags = [k in warned_keys(w1, br.PluginOverwriteWarning) for k in proc]
+                    if sp["attr"] == "megacomplex":
+                        outs.append("err dotted" if err else f"ok {bool_(flags[0])}")
+                    elif err:
+                        outs.append("err dotted" if not flags else "err dotted-after " + core.lst(map(bool_, flags)))
+                    else:
+                        outs.append("oks " + core.lst(map(bool_, flags)))
+                    if err is not None:
+                        rec["fails"] = True
+                        raise err
+                if fail == len(specs):
+                    rec["fails"] = True
+                    raise ImportError("simulated failing plugin import")
+            return load
+
+        eps = []
+        for idx, (group, specs, fail, kind) in enumerate(pool):
+            model_eps.append({"group": group, "calls": [], "fails": False, "loaded": False, "kind": kind})
+            eps.append(FakeEntryPoint(group, f"ep{idx}", loader_for(idx, group, specs, fail)))
+        hist = [{"group": g, "registers": [(sp["attr"], sp["names"], sp["module"] + "." + sp["cls"]) for sp in specs],
+                 "fail": fail} for g, specs, fail, _ in pool]
+        case = {"stream": "import", "entry_points": hist, "deactivated": deactivated}
+        lines, impl = ["reset"], ["reset"]
+        old_env = os.environ.pop("DEACTIVATE_GTA_PLUGINS", None)
+        old_eps = br.metadata.entry_points
+        raised = None
+        with monkeypatch_plugin_registry_megacomplex({}, create_new_registry=True), \
+                monkeypatch_plugin_registry_data_io({}, create_new_registry=True), \
+                monkeypatch_plugin_registry_project_io({}, create_new_registry=True):
+            try:
+                if deactivated:
+                    os.environ["DEACTIVATE_GTA_PLUGINS"] = "1"
+                br.metadata.entry_points = lambda: list(eps)
+                try:
+                    br.load_plugins()
+                except (ImportError, ValueError) as e:
+                    raised = e
+                n_warn = n_warned[0]
+            finally:
+                br.metadata.entry_points = old_eps
+                os.environ.pop("DEACTIVATE_GTA_PLUGINS", None)
+                if old_env is not None:
+                    os.environ["DEACTIVATE_GTA_PLUGINS"] = old_env
+            # the model gets the scenario as the real run unfolded it: an entry point that was never reached has the calls
+            # it would make, taken from its specification (fresh uids that are never compared)
+            ghost = 5000
+            for idx, (group, specs, fail, kind) in enumerate(pool):
+                rec = model_eps[idx]
+                if not rec["loaded"]:
+                    for sp in specs:
+                        if sp["attr"] == "megacomplex":
+                            rec["calls"].append(f"[{enc(REGISTER_FN['megacomplex'])},[{val_str(sp['names'][0])},{val_cls(sp['module'], sp['cls'], ghost)}]]")
+                        else:
+                            rec["calls"].append(f"[{enc(REGISTER_FN[sp['attr']])},[{val_strs(sp['names'])},{val_cls(sp['module'], sp['cls'], ghost)}]]")
+                        ghost += 10
+                    rec["fails"] = fail is not None
+            lines.append(f"load {bool_(deactivated)} [" + ",".join(
+                f"[{enc(r['group'])},{bool_(r['fails'])},[{','.join(r['calls'])}]]" for r in model_eps) + "]")
+            impl.append(f"loaded {bool_(raised is not None)} " + strs(outs))
+            state = {}
+            for attr, mod in mods.items():
+                known = getattr(mod, KNOWN_FN[attr])
+                get = getattr(mod, GET_FN[attr])
+                lines.append(f"api {KNOWN_FN[attr]} [T]")
+                impl.append("names " + strs(known(full_names=True)))
+                state[attr] = {}
+                for k in known(full_names=True):
+                    o = get(k)
+                    state[attr][k] = o
+                    lines.append(f"api {GET_FN[attr]} [{val_str(k)}]")
+                    impl.append(f"found {enc(br.full_plugin_name(o))}#{uids.get(id(o), '?')}")
+        # ---- oracle: the statement read on this scenario, from the scenario alone ------------------------------------------
+        ck.oracle_evals += 1
+        expect_first: dict = {}
+        reachable = []
+        stop = False
+        for (group, specs, fail, kind) in pool:
+            if deactivated or stop:
+                break
+            if not group.startswith("glotaran.plugins"):
+                continue
+            for j, sp in enumerate(specs):
+                if fail == j:
+                    stop = True
+                    break
+                full = sp["module"] + "." + sp["cls"]
+                for n in sp["names"]:
+                    if "." in n:                 # refused: the import of this module ends here
+                        stop = True
+                        break
+                    expect_first.setdefault((sp["attr"], n), full)
+                    reachable.append((sp["attr"], full if sp["attr"] == "megacomplex" else f"{full}_{n}", full))
+                if stop:
+                    break
+            if stop:
+                break
+            if fail == len(specs):
+                stop = True
+                break
+        should_raise = stop
+        if bool(raised) != should_raise:
+            ck.violation("import-failure-handling", f"load_plugins() {'raised ' + repr(raised) if raised else 'returned'} although "
+                         f"the scenario {'contains' if should_raise else 'does not contain'} a loaded entry point that fails", case)
+        for (attr, n), full in expect_first.items():
+            got = state[attr].get(n)
+            if got is None or br.full_plugin_name(got) != full:
+                ck.violation("import-first-registration-lost", f"{attr}: {n!r} was first registered by {full} during load_plugins() "
+                             f"but resolves to {None if got is None else br.full_plugin_name(got)}", case)
+        for attr, fk, full in reachable:
+            got = state[attr].get(fk)
+            if got is None or br.full_plugin_name(got) != full:
+                ck.violation("plugin-unreachable", f"{attr}: plugin {full} registered during load_plugins() is not retrievable "
+                             f"under {fk!r}", case)
+        for attr in state:
+            shorts = {k for k in state[attr] if "." not in k}
+            if shorts != {n for (a, n) in expect_first if a == attr}:
+                ck.violation("import-unexpected-names", f"{attr}: names {sorted(shorts)} are registered, the loaded entry points "
+                             f"register {sorted(n for (a, n) in expect_first if a == attr)}", case)
+        ck.case(("import", repr(hist), deactivated), bool(expect_first))
+        ck.count("stream:import")
+        ck.count("import:" + ("deactivated" if deactivated else "raised" if raised else "completed"))
+        ck.count(f"import:warnings-{min(n_warn, 3)}")
+        yield "import", hist, lines, impl
 
 
 def compare_streams(ck, gen, key, tag):
@@ -1017,7 +1402,7 @@ def run(ck):
         space = [list(h) for n in (1, 2, 3) for h in itertools.product(alpha, repeat=n)]
         ck.rng.shuffle(space)
         hists = space[:400]
-        hists += [[ck.rng.choice(alphabet(True) + COLLIDE_OPS) for _ in range(12)] for _ in range(150)]
+        hists += [[ck.rng.choice(alphabet(True) + COLLIDE_OPS + EXTRA_OPS) for _ in range(12)] for _ in range(150)]
         compare(ck, hists, "sampled")
     else:
         total = 0
@@ -1034,7 +1419,7 @@ def run(ck):
                 total += len(batch)
         ck.exhaustive = True
         ck.extra["exhaustive_space"] = f"all {total} histories of length <= 4 over {len(alpha)} operations"
-        compare(ck, [[ck.rng.choice(alpha + COLLIDE_OPS) for _ in range(12)] for _ in range(2000)], "random-12")
+        compare(ck, [[ck.rng.choice(alpha + COLLIDE_OPS + EXTRA_OPS) for _ in range(12)] for _ in range(2000)], "random-12")
     # public API (all three registries, through the regenerated table)
     def counted(gen):
         for which, hist, lines, impl in gen:
@@ -1047,6 +1432,8 @@ def run(ck):
     infer_stream(ck)
     compare_streams(ck, dispatch_stream(ck), "dispatch-model-vs-impl", "dispatch")
     compare_streams(ck, ext_stream(ck), "extensions-model-vs-impl", "ext")
+    compare_streams(ck, builtin_tie(ck), "builtin-table-vs-impl", "builtins")
+    compare_streams(ck, import_stream(ck), "import-model-vs-impl", "import")
     ck.sample({"history": [["addinst", ["a"], "X"], ["addinst", ["a"], "Z"], ["set", "a", "m.B_a"]],
                "observed_after_each_op": "registered_plugins(full/short) + lookup of every key"})
     if metas:
@@ -1055,7 +1442,7 @@ def run(ck):
 
 def search(ck):
     """widened oracle-only sweep on the real code"""
-    alpha = alphabet(True)
+    alpha = alphabet(True) + EXTRA_OPS
     for _ in range(ck.n(3000, 30000)):
         h = [ck.rng.choice(alpha) for _ in range(ck.rng.randint(1, 10))]
         run_history(ck, h)
@@ -1069,6 +1456,12 @@ def search(ck):
         if ck.violations:
             return
     for _ in ext_stream(ck):
+        if ck.violations:
+            return
+    for _ in builtin_tie(ck):
+        if ck.violations:
+            return
+    for _ in import_stream(ck):
         if ck.violations:
             return
 
